@@ -228,7 +228,11 @@ def judgeExtra (hNew hOld : HCtx) (op res : Array String) (dump : Option St) : H
       | some a, some b => (hNew, [⟨"C07,C17", "timeout-class", s!"hang={lineHangClass s (s.P a) (s.P b)} op={name}"⟩])
       | _, _ => (hNew, [])
     | _ => (hNew, [])
-  else if r0 == "panic" || r0 == "skip" || r0 == "unsupported" || r0 == "dead" then (hNew, []) else
+  else if r0 == "panic" || r0 == "skip" || r0 == "unsupported" || r0 == "dead" then (hNew, [])
+  else if res.contains "toomany" then
+    -- the harness cut an iterator off after far more items than there are elements
+    (hNew, [⟨"C07,C14,C16,C17", "iterator-does-not-end", s!"{name}"⟩])
+  else
   match name with
   | "line" =>
     match parsePt (op.getD 1 "") (op.getD 2 ""), parsePt (op.getD 3 "") (op.getD 4 ""),
